@@ -2,7 +2,8 @@
    excluded), regenerated from the source of this run as gen/SrcMesh.v, against the hand-written model Model/Mesh.v
    (package C19): every definition s_<f> equals its hand-written counterpart, for every arithmetic, every coordinate type,
    every mesh value (well-formed or not) -- no hypothesis.  The literals 0.5 / 0.25 / 1.0e-7 of the source are the
-   parameters half / quarter / snap of the model. *)
+   parameters half / quarter / snap of the model: a regenerated function that uses any of them takes all three, in this order,
+   so that each lemma says WHICH literal the source uses where. *)
 From Coq Require Import List Arith ZArith Lia Bool.
 From OV Require Import Base.Panic Base.Arith Model.Vector Model.Matrix Model.Mesh gen.SrcPrelude gen.SrcMesh Proofs.SrcEqBase.
 Import ListNotations.
@@ -47,7 +48,7 @@ Proof. reflexivity. Qed.
 (* ------------------------------------------------------------------ impl Mesh1D<f64, f64> *)
 (* get_interpolated_vars: the source re-reads nodes[node] / nodes[node+1] inside the lazily evaluated cell test and again
    in the body; the model reads both once.  Inside the loop (node < size - 1) every such read succeeds. *)
-Lemma src_mesh1_interp (snap : TA) mf (x : TA) : s_mesh1_interp snap mf x = interp1 snap mf x.
+Lemma src_mesh1_interp (half quarter snap : TA) mf (x : TA) : s_mesh1_interp half quarter snap mf x = interp1 snap mf x.
 Proof.
   unfold s_mesh1_interp, interp1. apply bind_ext_ok; intros n1 E. apply usub_Ok in E. destruct E as [Hle ->].
   apply for_ext; intros node res Hn.
@@ -67,7 +68,7 @@ Proof.
       try rewrite !bind_assoc; repeat (apply bind_ext; intros ?); reflexivity.
 Qed.
 
-Lemma src_mesh1_trapezium (half : TA) mf var : s_mesh1_trapezium half mf var = trapezium1 half mf var.
+Lemma src_mesh1_trapezium (half quarter snap : TA) mf var : s_mesh1_trapezium half quarter snap mf var = trapezium1 half mf var.
 Proof. unfold s_mesh1_trapezium, trapezium1, trap1_cell, var_at. src_eq. Qed.
 
 (* ------------------------------------------------------------------ Mesh2D<T> *)
@@ -142,9 +143,9 @@ Lemma src_mesh2_index mb (ij : nat * nat) : s_mesh2_index mb ij = index2 mb (fst
 Proof. reflexivity. Qed.
 
 (* ------------------------------------------------------------------ impl Mesh2D<f64> *)
-Lemma src_mesh2_trapezium (quarter : TA) mb var : s_mesh2_trapezium quarter mb var = trapezium2 quarter mb var.
+Lemma src_mesh2_trapezium (half quarter snap : TA) mb var : s_mesh2_trapezium half quarter snap mb var = trapezium2 quarter mb var.
 Proof. unfold s_mesh2_trapezium, trapezium2, trap2_gen, trap2_cell, var_at. src_eq. Qed.
-Lemma src_mesh2_square_trapezium (quarter : TA) mb var : s_mesh2_square_trapezium quarter mb var = square_trapezium2 quarter mb var.
+Lemma src_mesh2_square_trapezium (half quarter snap : TA) mb var : s_mesh2_square_trapezium half quarter snap mb var = square_trapezium2 quarter mb var.
 Proof. unfold s_mesh2_square_trapezium, square_trapezium2, trap2_gen, trap2_cell, var_at. src_eq. Qed.
 
 Definition model_is_source_Mesh : Prop :=
@@ -156,8 +157,8 @@ Definition model_is_source_Mesh : Prop :=
   (forall ma node, s_mesh1_get_nodes_vars ma node = get_nodes_vars1 ma node) /\
   (forall ma, s_mesh1_nodes ma = Ok (m1_nodes ma)) /\
   (forall ma node, s_mesh1_index ma node = index1 ma node) /\
-  (forall (snap : TA) mf (x : TA), s_mesh1_interp snap mf x = interp1 snap mf x) /\
-  (forall (half : TA) mf var, s_mesh1_trapezium half mf var = trapezium1 half mf var) /\
+  (forall (half quarter snap : TA) mf (x : TA), s_mesh1_interp half quarter snap mf x = interp1 snap mf x) /\
+  (forall (half quarter snap : TA) mf var, s_mesh1_trapezium half quarter snap mf var = trapezium1 half mf var) /\
   (forall (xs ys : list TA) (nvars : nat), s_mesh2_new xs ys nvars = Ok (mesh2_new xs ys nvars)) /\
   (forall mb, s_mesh2_nvars mb = Ok (m2_nvars mb)) /\
   (forall mb, s_mesh2_nnodes mb = Ok (m2_nx mb, m2_ny mb)) /\
@@ -171,8 +172,8 @@ Definition model_is_source_Mesh : Prop :=
   (forall mb nodey, s_mesh2_cross_section_ynode mb nodey = cross_section_ynode mb nodey) /\
   (forall mb var, s_mesh2_var_as_matrix mb var = var_as_matrix mb var) /\
   (forall mb (func : TA -> TA -> res TA) var, s_mesh2_apply mb func var = apply2 func mb var) /\
-  (forall (quarter : TA) mb var, s_mesh2_trapezium quarter mb var = trapezium2 quarter mb var) /\
-  (forall (quarter : TA) mb var, s_mesh2_square_trapezium quarter mb var = square_trapezium2 quarter mb var) /\
+  (forall (half quarter snap : TA) mb var, s_mesh2_trapezium half quarter snap mb var = trapezium2 quarter mb var) /\
+  (forall (half quarter snap : TA) mb var, s_mesh2_square_trapezium half quarter snap mb var = square_trapezium2 quarter mb var) /\
   (forall mb (ij : nat * nat), s_mesh2_index mb ij = index2 mb (fst ij) (snd ij)).
 Lemma model_is_source_Mesh_lemma : model_is_source_Mesh.
 Proof. exact (conj src_mesh1_new (conj src_mesh1_nnodes (conj src_mesh1_nvars (conj src_mesh1_coord (conj src_mesh1_set_nodes_vars (conj src_mesh1_get_nodes_vars (conj src_mesh1_nodes (conj src_mesh1_index (conj src_mesh1_interp (conj src_mesh1_trapezium (conj src_mesh2_new (conj src_mesh2_nvars (conj src_mesh2_nnodes (conj src_mesh2_coord (conj src_mesh2_xnodes (conj src_mesh2_ynodes (conj src_mesh2_set_nodes_vars (conj src_mesh2_get_nodes_vars (conj src_mesh2_assign (conj src_mesh2_cross_section_xnode (conj src_mesh2_cross_section_ynode (conj src_mesh2_var_as_matrix (conj src_mesh2_apply (conj src_mesh2_trapezium (conj src_mesh2_square_trapezium src_mesh2_index))))))))))))))))))))))))). Qed.
